@@ -5,7 +5,7 @@ import ast
 
 from ..gen import (EXTRA, Kernel, Untranslatable, all_stmts, assign_value, find_assign, find_for,
                   guard_condition, register, straightline)
-from ..pyexpr import ExprTr, emit_def, translate_block
+from ..pyexpr import ExprTr, emit_def, parse_file, translate_block
 
 T = "direct/data/transforms.py"
 CROP = ("DirectVerif.Model.Crop",)
@@ -320,4 +320,327 @@ def _is_pow2(fn: ast.FunctionDef) -> str:
     return f"def is_power_of_two (number : Nat) : Bool :=\n  {b(body[0].value)}\n"
 
 
-EXTRA["C01"] = _c01_extra
+# =================================================================================================
+# C01 phase 3: re-implementations of the centred transform with numpy outside transforms.py, structural facts about
+# the functions of transforms.py (state / in-place / early returns), and every call site of the operators under direct/.
+_NP_STAGE = {"np.fft.fftshift": ("shift", ".fshift"), "np.fft.ifftshift": ("shift", ".ishift"),
+             "numpy.fft.fftshift": ("shift", ".fshift"), "numpy.fft.ifftshift": ("shift", ".ishift"),
+             "np.fft.fft2": ("t2", "false"), "np.fft.ifft2": ("t2", "true"), "np.fft.fftn": ("tn", "false"),
+             "np.fft.ifftn": ("tn", "true")}
+REIMPLS = [("reimpl_fake_fft", "direct/data/fake.py", "fft", False, [-2, -1]),
+           ("reimpl_fake_ifft", "direct/data/fake.py", "ifft", True, [-2, -1]),
+           ("reimpl_shepp_fft", "direct/data/datasets.py", "SheppLoganDataset.fft", False, [1, 2])]
+
+
+def _lit_axes(node, defaults):
+    """axes expression -> list of ints | None (omitted / None)"""
+    if node is None or (isinstance(node, ast.Constant) and node.value is None):
+        return None
+    if isinstance(node, ast.Name) and node.id in defaults:
+        return _lit_axes(defaults[node.id], {})
+    try:
+        v = ast.literal_eval(node)
+    except Exception:  # noqa: BLE001
+        raise Untranslatable(f"axes `{ast.unparse(node)}` is not a literal")
+    if isinstance(v, int):
+        return [v]
+    if isinstance(v, (tuple, list)) and all(isinstance(i, int) and not isinstance(i, bool) for i in v):
+        return list(v)
+    raise Untranslatable(f"axes `{ast.unparse(node)}`")
+
+
+def scan_reimpl(fn: ast.FunctionDef):
+    """-> (inverse, [lean step], [axes]) : the numpy stages applied to the first parameter, in dataflow order"""
+    params = [a.arg for a in fn.args.args]
+    if not params:
+        raise Untranslatable("no parameter")
+    defaults = dict(zip(params[len(params) - len(fn.args.defaults):], fn.args.defaults))
+    env = {params[0]: []}
+
+    def ev(e):
+        if isinstance(e, ast.Name):
+            if e.id not in env:
+                raise Untranslatable(f"`{e.id}` is not derived from `{params[0]}`")
+            return env[e.id]
+        if isinstance(e, ast.Call) and ast.unparse(e.func) in _NP_STAGE and e.args:
+            kind, what = _NP_STAGE[ast.unparse(e.func)]
+            base = ev(e.args[0])
+            ax = e.args[1] if len(e.args) > 1 else _kw(e, "axes")
+            if len(e.args) > 2 or any(k.arg not in ("axes", "norm") for k in e.keywords):
+                raise Untranslatable(f"unexpected arguments in `{ast.unparse(e)[:60]}`")
+            axes = _lit_axes(ax, defaults)
+            if kind == "shift":
+                return base + [(f"⟨.always, {what}⟩", axes, None)]
+            nm = _kw(e, "norm")
+            txt = "None" if nm is None else ast.unparse(nm).replace('"', "'")
+            if txt not in _NORMS:
+                raise Untranslatable(f"unknown norm `{txt}`")
+            if axes is None and kind == "t2":
+                axes = [-2, -1]
+            return base + [(f"⟨.always, (.transform {what} {_NORMS[txt]} {_NORMS[txt]})⟩", axes, what == "true")]
+        raise Untranslatable(f"unexpected expression `{ast.unparse(e)[:60]}`")
+
+    for st in fn.body:
+        if _is_docstring(st):
+            continue
+        if isinstance(st, ast.Assign) and len(st.targets) == 1 and isinstance(st.targets[0], ast.Name):
+            env[st.targets[0].id] = ev(st.value)
+        elif isinstance(st, ast.Return) and st.value is not None:
+            stages = ev(st.value)
+            inv = [i for _, _, i in stages if i is not None]
+            return (inv[0] if inv else False), [s for s, _, _ in stages], [a for _, a, _ in stages]
+        else:
+            raise Untranslatable(f"unexpected statement `{ast.unparse(st)[:60]}`")
+    raise Untranslatable("no return")
+
+
+def _lean_axes(a):
+    return "none" if a is None else "some [" + ", ".join(str(i) for i in a) + "]"
+
+
+FN_FACTS = [("fft2", ".fft2"), ("ifft2", ".ifft2"), ("roll", ".roll"), ("roll_one_dim", ".rollOneDim"), ("fftshift", ".fftshift"),
+            ("ifftshift", ".ifftshift"), ("verify_fft_dtype_possible", ".verifyDtype"), ("view_as_complex", ".viewAsComplex"),
+            ("view_as_real", ".viewAsReal")]
+
+
+def fn_facts(fn: ast.FunctionDef):
+    """-> dict(globals, foreignStores, inplace, decorators, mutableDefaults, earlyReturns)"""
+    params = {a.arg for a in fn.args.args + fn.args.kwonlyargs}
+    fresh = set()          # names bound to a list built inside the function
+    for n in ast.walk(fn):
+        if isinstance(n, ast.Assign) and len(n.targets) == 1 and isinstance(n.targets[0], ast.Name):
+            v = n.value
+            if isinstance(v, (ast.List, ast.ListComp)) or (isinstance(v, ast.BinOp) and isinstance(v.left, ast.List)) \
+                    or (isinstance(v, ast.Call) and ast.unparse(v.func) == "list"):
+                fresh.add(n.targets[0].id)
+    f = dict(globals=0, foreignStores=0, inplace=0, decorators=len(fn.decorator_list), mutableDefaults=0, earlyReturns=0)
+    for d in list(fn.args.defaults) + [k for k in fn.args.kw_defaults if k is not None]:
+        if isinstance(d, (ast.List, ast.Dict, ast.Set, ast.Call, ast.ListComp, ast.DictComp)):
+            f["mutableDefaults"] += 1
+
+    def store(t):
+        if isinstance(t, (ast.Tuple, ast.List)):
+            for e in t.elts:
+                store(e)
+        elif isinstance(t, ast.Attribute):
+            f["foreignStores"] += 1
+        elif isinstance(t, ast.Subscript):
+            base = t.value
+            while isinstance(base, (ast.Subscript, ast.Attribute)):
+                base = base.value
+            if isinstance(base, ast.Name) and base.id in fresh:
+                return
+            if isinstance(base, ast.Name) and base.id in params:
+                f["inplace"] += 1
+            else:
+                f["foreignStores"] += 1
+
+    for n in ast.walk(fn):
+        if isinstance(n, (ast.Global, ast.Nonlocal)):
+            f["globals"] += 1
+        elif isinstance(n, ast.Assign):
+            for t in n.targets:
+                store(t)
+        elif isinstance(n, ast.AnnAssign):
+            store(n.target)
+        elif isinstance(n, ast.AugAssign):
+            if isinstance(n.target, ast.Name) and n.target.id not in fresh:
+                f["inplace"] += 1          # `data += …` / `shift %= …` on a tensor or argument updates it in place
+            else:
+                store(n.target)
+        elif isinstance(n, ast.Call):
+            if isinstance(n.func, ast.Attribute) and n.func.attr.endswith("_") and not n.func.attr.startswith("__"):
+                f["inplace"] += 1
+            if any(k.arg == "out" for k in n.keywords):
+                f["inplace"] += 1
+            if ast.unparse(n.func) in ("setattr", "globals", "vars", "object.__setattr__"):
+                f["foreignStores"] += 1
+        elif isinstance(n, (ast.FunctionDef, ast.Lambda)) and n is not fn:
+            pass
+    body = [s for s in fn.body if not _is_docstring(s)]
+    rets = [n for n in ast.walk(fn) if isinstance(n, ast.Return)]
+    f["earlyReturns"] = sum(1 for r in rets if not (body and r is body[-1]))
+    return f
+
+
+_OP_NAMES = ("fft2", "ifft2", "forward_operator", "backward_operator")
+
+
+def _spatial_literals(tree):
+    found = []
+    for n in ast.walk(tree):
+        vals = []
+        if isinstance(n, ast.Assign) and any("spatial_dims" in ast.unparse(t) for t in n.targets):
+            vals = [n.value]
+        elif isinstance(n, ast.AnnAssign) and "spatial_dims" in ast.unparse(n.target) and n.value is not None:
+            vals = [n.value]
+        elif isinstance(n, ast.Call) and ast.unparse(n.func).endswith("SpatialDims"):
+            vals = [k.value for k in n.keywords] + list(n.args)
+        elif isinstance(n, (ast.FunctionDef, ast.AsyncFunctionDef)):
+            a = n.args
+            ps = a.args + a.kwonlyargs
+            ds = [None] * (len(a.args) - len(a.defaults)) + list(a.defaults) + list(a.kw_defaults)
+            vals = [d for p, d in zip(ps, ds) if d is not None and "spatial_dims" in p.arg]
+        for v in vals:
+            try:
+                lit = ast.literal_eval(v)
+            except Exception:  # noqa: BLE001
+                continue
+            if isinstance(lit, (tuple, list)) and lit and all(isinstance(i, int) and not isinstance(i, bool) for i in lit):
+                if list(lit) not in found:
+                    found.append(list(lit))
+    return found
+
+
+def scan_call_sites(repo=None):
+    """every call of fft2 / ifft2 / forward_operator / backward_operator under direct/ (not the numpy ones, not the
+    `_forward_operator` wrappers) -> (files, [dict(file, line, understood, dims, overrides, text)])"""
+    from ..gen import REPO
+    repo = repo or REPO
+    files = sorted(p for p in (repo / "direct").rglob("*.py"))
+    trees = {}
+    for p in files:
+        try:
+            trees[p] = parse_file(p)
+        except Untranslatable:
+            continue
+    glob = []
+    for p, t in trees.items():
+        for lit in _spatial_literals(t):
+            if lit not in glob:
+                glob.append(lit)
+    glob.sort()
+    sites = []
+    for fi, p in enumerate(files):
+        t = trees.get(p)
+        if t is None:
+            continue
+        local = sorted(_spatial_literals(t)) or glob
+        for n in ast.walk(t):
+            if not isinstance(n, ast.Call):
+                continue
+            ftxt = ast.unparse(n.func)
+            last = ftxt.split(".")[-1]
+            if last not in _OP_NAMES or ftxt.startswith(("np.", "numpy.", "torch.fft")):
+                continue
+            dexpr = _kw(n, "dim")
+            if dexpr is None and len(n.args) >= 2:
+                dexpr = n.args[1]
+            understood, dims = True, []
+            if dexpr is None:
+                dims = [[1, 2]]
+            else:
+                inner = dexpr
+                if isinstance(inner, ast.Call) and ast.unparse(inner.func) in ("tuple", "list") and len(inner.args) == 1:
+                    inner = inner.args[0]
+                try:
+                    lit = ast.literal_eval(inner)
+                    if isinstance(lit, int):
+                        lit = [lit]
+                    dims = [list(lit)]
+                    if not all(isinstance(i, int) and not isinstance(i, bool) for i in dims[0]):
+                        understood, dims = False, []
+                except Exception:  # noqa: BLE001
+                    if isinstance(inner, (ast.Name, ast.Attribute)):
+                        dims = [list(x) for x in local]
+                    elif isinstance(inner, (ast.GeneratorExp, ast.ListComp)) and len(inner.generators) == 1 \
+                            and isinstance(inner.generators[0].target, ast.Name) and not inner.generators[0].ifs \
+                            and isinstance(inner.generators[0].iter, (ast.Name, ast.Attribute)):
+                        v = inner.generators[0].target.id
+                        e = inner.elt
+                        if isinstance(e, ast.Name) and e.id == v:
+                            k = 0
+                        elif (isinstance(e, ast.BinOp) and isinstance(e.op, (ast.Sub, ast.Add)) and isinstance(e.left, ast.Name)
+                              and e.left.id == v and isinstance(e.right, ast.Constant) and isinstance(e.right.value, int)):
+                            k = e.right.value if isinstance(e.op, ast.Add) else -e.right.value
+                        else:
+                            k = None
+                        if k is None:
+                            understood = False
+                        else:
+                            dims = [[x + k for x in lit] for lit in local]
+                    else:
+                        understood = False
+            overrides = []
+            for kw in n.keywords:
+                if kw.arg == "dim":
+                    continue
+                if kw.arg in ("centered", "normalized", "complex_input") and isinstance(kw.value, ast.Constant) \
+                        and isinstance(kw.value.value, bool):
+                    overrides.append((("centered", "normalized", "complex_input").index(kw.arg), kw.value.value))
+                else:
+                    overrides.append((9, False))
+            sites.append(dict(file=fi, path=str(p.relative_to(repo)), line=n.lineno, understood=understood, dims=dims,
+                              overrides=overrides, text=ast.unparse(n)[:120]))
+    sites.sort(key=lambda d: (d["file"], d["line"], d["text"]))
+    return [str(p.relative_to(repo)) for p in files], sites
+
+
+def _c01_phase3_extra():
+    from ..gen import REPO, find_function, parse_file as _pf
+
+    out, status = [], {}
+    trees = {}
+
+    def tree(rel):
+        if rel not in trees:
+            trees[rel] = _pf(REPO / rel)
+        return trees[rel]
+
+    for name, rel, qual, inv, axes in REIMPLS:
+        try:
+            i, steps, ax = scan_reimpl(find_function(tree(rel), qual))
+            out.append(f"/-- translated from `{rel}`:`{qual}` (numpy stages in dataflow order, axes of every stage) -/\n"
+                       f"def {name} : Fft.Reimpl :=\n  {{ inverse := {'true' if i else 'false'}, steps := [{', '.join(steps)}],\n"
+                       f"    axes := [{', '.join(_lean_axes(a) for a in ax)}] }}\n")
+            status[name] = "translated"
+        except Untranslatable as e:
+            a = _lean_axes(axes)
+            out.append(f"/-- SKIPPED ({e}) -/\ndef {name} : Fft.Reimpl :=\n  {{ inverse := {'true' if inv else 'false'}, "
+                       f"steps := Fft.centredPlan {'true' if inv else 'false'}, axes := [{a}, {a}, {a}] }}\n")
+            status[name] = f"skipped: {e}"
+    rows = []
+    try:
+        t = tree(T)
+        for pyname, lean in FN_FACTS:
+            f = fn_facts(find_function(t, pyname))
+            rows.append(f"  ⟨{lean}, {f['globals']}, {f['foreignStores']}, {f['inplace']}, {f['decorators']}, {f['mutableDefaults']}, "
+                        f"{f['earlyReturns']}⟩")
+        out.append(f"/-- translated from `{T}`: per function — `global`s, foreign stores, in-place updates of an argument, decorators, "
+                   "mutable defaults, early returns -/\n"
+                   "def fn_facts : List Fft.FnFacts := [\n" + ",\n".join(rows) + "]\n")
+        status["fn_facts"] = "translated"
+    except Untranslatable as e:
+        rows = [f"  ⟨{lean}, 0, 0, 0, 0, 0, {1 if lean == '.rollOneDim' else 0}⟩" for _, lean in FN_FACTS]
+        out.append(f"/-- SKIPPED ({e}) -/\ndef fn_facts : List Fft.FnFacts := [\n" + ",\n".join(rows) + "]\n")
+        status["fn_facts"] = f"skipped: {e}"
+    try:
+        files, sites = scan_call_sites()
+        lines = []
+        for s_ in sites:
+            dims = "[" + ", ".join("[" + ", ".join(str(i) for i in d) + "]" for d in s_["dims"]) + "]"
+            ov = "[" + ", ".join(f"({k}, {'true' if v else 'false'})" for k, v in s_["overrides"]) + "]"
+            lines.append(f"  ⟨{s_['file']}, {s_['line']}, {'true' if s_['understood'] else 'false'}, {dims}, {ov}⟩  -- {s_['path']}")
+        # keep the path as a trailing comment on each row
+        rows_txt = []
+        for i, l in enumerate(lines):
+            row, path = l.split("  -- ")
+            rows_txt.append(row + ("," if i + 1 < len(lines) else "") + "  -- " + path)
+        out.append("/-- every call of `fft2` / `ifft2` / `forward_operator` / `backward_operator` under `direct/`: file index, line, "
+                   "`dim` understood?, the axis tuples it can denote, flag overrides -/\n"
+                   "def call_sites : List Fft.CallSite := [\n" + "\n".join(rows_txt) + "\n  ]\n")
+        status["call_sites"] = "translated"
+    except Untranslatable as e:
+        out.append(f"/-- SKIPPED ({e}) -/\ndef call_sites : List Fft.CallSite := []\n")
+        status["call_sites"] = f"skipped: {e}"
+    return "\n".join(out), status
+
+
+def _c01_all_extra():
+    a, sa = _c01_extra()
+    b, sb = _c01_phase3_extra()
+    sa.update(sb)
+    return a + "\n" + b, sa
+
+
+EXTRA["C01"] = _c01_all_extra
